@@ -42,6 +42,7 @@ type pktHeader struct {
 	Fields [][]any          `json:"fields"`
 	Zero   [][]int          `json:"zero"`
 	Min    map[string]int64 `json:"min"`
+	Max    map[string]int64 `json:"max"`
 }
 
 func (h *pktHeader) fields() []pktField {
@@ -253,6 +254,8 @@ func runC09(w *World, r *Report) {
 	r.Rule("fresh", "a value decoded into inside a list loop is new in each iteration", 2)
 	r.Rule("exhaust", "list-decoding loops run while any element can remain", 2)
 	r.Rule("retain", "elements decoded in list loops are stored into the receiver", 2)
+	r.Rule("keepall", "an element consumed by a list loop is stored on every path", 1)
+	r.Rule("nowrap", "no size function of a header kind computes a length in arithmetic narrower than 16 bits that the field ranges can overflow", 10)
 	r.Rule("presence", "the encoder's test for an optional part is one the decoder re-establishes when it finds the part", 1)
 	spec, err := loadPacketLayout()
 	if err != nil {
@@ -301,6 +304,12 @@ func runC09(w *World, r *Report) {
 		}
 	}
 	r.Stats["header_kinds_two_way"] = nK
+	for _, key := range w.sortedFuncKeys() {
+		if fi := w.Funcs[key]; strings.HasPrefix(key, "protocol.") {
+			keepAllRule(w, r, fi)
+		}
+	}
+	nowrapSizes(w, r, spec)
 	presenceEthernet(w, r)
 }
 
@@ -1050,5 +1059,218 @@ func presenceEthernet(w *World, r *Report) {
 		r.Fail(VViolation, "presence", "protocol.Ethernet", "vlan", w.Pos(cond.Pos()), fmt.Sprintf("the encoder emits the tag only when %s, but a decoded tag leaves %s as found on the wire, where every value including 0 is legal: a priority-tagged frame (VID 0) decodes with its tag and is encoded without it", condText, strings.Join(free, ", ")))
 	default:
 		r.OK("presence", "protocol.Ethernet", "vlan", w.Pos(cond.Pos()), "the encoder's condition "+condText+" is established by the decoder on the tagged path", true)
+	}
+}
+
+// nowrapSizes: the size a header reports is what encoder and decoder both advance by; when it is computed
+// in 8-bit arithmetic from a field whose well-formed range overflows it (8*(HEL+1) in uint8), encoder and
+// decoder still agree with each other and disagree with the wire: a long extension header is cut short.
+func nowrapSizes(w *World, r *Report, spec *pktSpec) {
+	declared := map[string]int{} // kind.field -> bits
+	maxVal := map[string]int64{}
+	for _, h := range append(append([]*pktHeader(nil), spec.Headers...), spec.Words...) {
+		for _, f := range h.fields() {
+			declared[h.Kind+"."+f.Name] = f.Len
+		}
+		for f, m := range h.Max {
+			maxVal[h.Kind+"."+f] = m
+		}
+	}
+	for _, k := range w.KindsL {
+		if !strings.HasPrefix(k.Name, "protocol.") || k.Len == nil {
+			continue
+		}
+		ls := w.LenSummary(k)
+		pos := "-"
+		if ls != nil && ls.Fn != nil {
+			pos = w.Pos(ls.Fn.Decl.Pos())
+		}
+		if ls == nil || ls.Term == nil {
+			continue // the extent rule reports kinds without a size summary
+		}
+		st := structOf(k.Named)
+		maxOf := func(a *Atom) (int64, bool) {
+			if a.Kind != "val" || !strings.HasPrefix(a.Path, "$.") || st == nil {
+				return 0, false
+			}
+			name := strings.TrimPrefix(a.Path, "$.")
+			if strings.Contains(name, ".") {
+				return 0, false
+			}
+			if m, ok := maxVal[k.Name+"."+name]; ok {
+				return m, true
+			}
+			if b, ok := declared[k.Name+"."+name]; ok && b < 62 {
+				return int64(1)<<uint(b) - 1, true
+			}
+			for i := 0; i < st.NumFields(); i++ {
+				if st.Field(i).Name() == name {
+					if bits, uns := intBits(st.Field(i).Type()); bits > 0 && bits < 62 && uns {
+						return int64(1)<<uint(bits) - 1, true
+					}
+				}
+			}
+			return 0, false
+		}
+		var upper func(t *Term) (int64, bool)
+		upper = func(t *Term) (int64, bool) {
+			total := t.C
+			for key, c := range t.K {
+				a := t.Atoms[key]
+				var m int64
+				ok := false
+				switch a.Kind {
+				case "val":
+					m, ok = maxOf(a)
+				case "wrap":
+					if im, iok := upper(a.Sub[0]); iok {
+						m, ok = im, true
+					}
+					if bits := wrapBits(a.Path); bits > 0 && bits < 62 {
+						lim := int64(1)<<uint(bits) - 1
+						if !ok || m > lim {
+							m, ok = lim, true
+						}
+					}
+				case "ite":
+					a0, ok0 := upper(a.Sub[0])
+					a1, ok1 := upper(a.Sub[1])
+					if ok0 && ok1 {
+						m, ok = a0, true
+						if a1 > m {
+							m = a1
+						}
+					}
+				}
+				if !ok || c < 0 {
+					if c < 0 {
+						continue // subtracting a non-negative amount only lowers the bound
+					}
+					return 0, false
+				}
+				total += c * m
+			}
+			return total, true
+		}
+		bad := ""
+		n := 0
+		var scan func(t *Term)
+		scan = func(t *Term) {
+			for _, a := range t.Atoms {
+				if a.Kind == "wrap" {
+					bits := wrapBits(a.Path)
+					if bits > 0 && bits < 16 {
+						n++
+						if ub, ok := upper(a.Sub[0]); !ok || ub > int64(1)<<uint(bits)-1 {
+							if bad == "" {
+								bad = fmt.Sprintf("%s, whose operand can reach %d", a.Key(), ub)
+								if !ok {
+									bad = a.Key() + ", whose operand is not bounded by the field ranges"
+								}
+							}
+						}
+					}
+				}
+				for _, sub := range a.Sub {
+					scan(sub)
+				}
+			}
+		}
+		scan(ls.Term)
+		if bad != "" {
+			r.Fail(VViolation, "nowrap", k.Name, "", pos, "the size function computes "+bad+": the reported size wraps for well-formed headers, so encoder and decoder agree with each other and cut the header short on the wire")
+		} else {
+			r.OK("nowrap", k.Name, "", pos, fmt.Sprintf("size %v: %d narrow sub-terms, none can overflow under the declared field ranges", ls.Term, n), n > 0)
+		}
+	}
+}
+
+func wrapBits(typ string) int {
+	switch typ {
+	case "uint8", "int8", "byte":
+		return 8
+	case "uint16", "int16":
+		return 16
+	case "uint32", "int32":
+		return 32
+	}
+	return 0
+}
+
+func init() {
+	extraDumps["steps"] = func(w *World, args []string) {
+		for _, key := range w.sortedFuncKeys() {
+			fi := w.Funcs[key]
+			if fi.Decl.Body == nil {
+				continue
+			}
+			hasBytes := false
+			for _, fl := range fi.Decl.Type.Params.List {
+				if isByteSlice(fi.Pkg.TypesInfo.TypeOf(fl.Type)) {
+					hasBytes = true
+				}
+			}
+			if !hasBytes {
+				continue
+			}
+			fs := w.Interpret(fi, "decode")
+			for _, l := range fs.Loops {
+				for _, c := range l.Cursors {
+					var ps []string
+					for _, p := range c.Paths {
+						ps = append(ps, p.String())
+					}
+					fmt.Printf("%s %s cursor %s: %s\n", key, w.Pos(l.Pos), c.Var, strings.Join(ps, " | "))
+				}
+			}
+		}
+	}
+}
+
+func init() {
+	extraDumps["objfields"] = func(w *World, args []string) {
+		args = args[1:]
+		fi := w.Funcs[args[0]]
+		if fi == nil {
+			return
+		}
+		fs := w.Interpret(fi, "decode")
+		for _, rt := range fs.Rets {
+			if rt.IsErr || rt.St == nil {
+				continue
+			}
+			var ks []string
+			for k := range rt.St.fields {
+				if len(args) < 2 || strings.HasSuffix(k, args[1]) {
+					ks = append(ks, k)
+				}
+			}
+			sort.Strings(ks)
+			fmt.Printf("ret %s:\n", w.Pos(rt.Pos))
+			for _, k := range ks {
+				fmt.Printf("   %s = %s\n", k, rt.St.fields[k].valString())
+			}
+		}
+	}
+}
+
+func init() {
+	extraDumps["callargs"] = func(w *World, args []string) {
+		args = args[1:]
+		fi := w.Funcs[args[0]]
+		if fi == nil {
+			return
+		}
+		fs := w.Interpret(fi, "decode")
+		for _, c := range fs.Calls {
+			if c.Callee == nil || (len(args) > 1 && c.Callee.Name() != args[1]) {
+				continue
+			}
+			var as []string
+			for _, a := range c.Args {
+				as = append(as, a.valString())
+			}
+			fmt.Printf("%s %s(%s) guard[%s]\n", w.Pos(c.Pos), c.Callee.Name(), strings.Join(as, ", "), c.Guard)
+		}
 	}
 }
